@@ -70,7 +70,8 @@ def local_uses(fn, b):
         if not (n.get("k") == "path" and n["r"].get("k") == "local" and n["r"]["b"] == b):
             continue
         cur, p = n, fn.parent(n)
-        while p is not None and (p.get("k") in ("ref", "cast") or (p.get("k") == "un" and p["op"] == "Deref")):
+        while p is not None and (p.get("k") in ("ref", "cast") or (p.get("k") == "un" and p["op"] == "Deref") or
+                                 (p.get("k") == "block" and p.get("inl") and p.get("tail") is cur)):   # value of an absorbed helper call
             cur, p = p, fn.parent(p)
         if p is None:
             out.append(("other", n))
@@ -554,7 +555,8 @@ def run(ctx):
                 good = lp is not None and is_transitions_of_state(method_chain(fn, lp["iter"])[0])
             src = src and good
         idx = hirq.order_index(fn)
-        before = idx[id(ev[-1])] < idx[id(t_loop)] and hirq.enclosing_loops(fn, ev[-1])[:1] == [s_loop]
+        in_iter = any(x is ev[-1] for x in hirq.walk(t_loop["iter"]))   # sorted inside the iterated expression (absorbed helper)
+        before = (idx[id(ev[-1])] < idx[id(t_loop)] or in_iter) and hirq.enclosing_loops(fn, ev[-1])[:1] == [s_loop]
         ok = fresh and src and before and not rest and its == [t_loop] and cmp_name == "transition_document_order" and order == (0, 1)
         return ok, "transitions of the searched state pushed into a fresh Vec: %s, then sort_by %s%s" % (src and fresh, cmp_name, order)
 
